@@ -687,6 +687,9 @@ func init() {
 			// data maps: nil pointers and unsupported kinds at depth 0..3
 			secs = append(secs, core.Section{Name: "hostile-data", N: nData,
 				Run: func(c *core.Ctx, i int) {
+					// (maps with keys that are not strings print all keys alike: which entry survives is not defined, so these
+					// evaluations stay out of the sample that is replayed concurrently)
+					defer poolPause(c)()
 					d, desc, unsupported := plantedData(c.Rng)
 					src := []string{"ok", "{{ v }}", "@each(e in v){{ e }}@end", "{{ v.a }}", "{{ v[0] }}", "{{ v.len() }}", "@dump(v)", "@if(v)y@end"}[c.Rng.Intn(8)]
 					c.Input(map[string]any{"source": src, "data": desc})
